@@ -18,6 +18,22 @@ class BuiltinMixin:
             h = getattr(self, "bi_" + name, None)
             if h is not None and (name not in self.SPEC_ONLY or fr.kind == "spec"):
                 return h(node, st, fr)
+            if fr.kind == "spec" and name in self.side.specs:
+                macro = self.side.specs[name]
+                args = [self.ev(a, st, fr) for a in node.args]
+                saved = st.env
+                st.env = dict(saved)
+                for p_, a_ in zip(macro.args.args, args):
+                    st.env[p_.arg] = a_
+                try:
+                    for stmt_ in macro.body:
+                        if isinstance(stmt_, ast.Assign):
+                            self.assign_place(stmt_.targets[0], self.ev(stmt_.value, st, fr), st, fr)
+                        elif isinstance(stmt_, ast.Return):
+                            return self.ev(stmt_.value, st, fr)
+                    raise Untranslatable(f"spec macro {name} without return")
+                finally:
+                    st.env = saved
         if isinstance(fn, ast.Attribute) and fn.attr == "render":
             tmpl = self.ev(fn.value, st, fr)
             if tmpl.pt == "obj:Template":
@@ -40,7 +56,7 @@ class BuiltinMixin:
                 return self.str_method(self.unbox(recv, "str"), fn.attr, [self.ev(a, st, fr) for a in node.args], {}, st, fr, node)
         if isinstance(fn, ast.Attribute) and ("method:" + fn.attr) in self.side.assumed:
             recv = self.ev(fn.value, st, fr)
-            if recv.pt in ("any",) or recv.pt.startswith("obj:"):
+            if (recv.pt == "any" and self.unique_method_root(fn.attr) is None) or recv.pt.startswith("obj:"):
                 if not (self.static_class(recv) and self.repo.find_method(self.static_class(recv), fn.attr)):
                     args, kwargs = self.eval_args(node, st, fr)
                     return self.call_named("method:" + fn.attr, [recv] + args, kwargs, st, fr, node)
